@@ -323,6 +323,7 @@ func RunC10(p *boundPkg, cases int) {
 			continue
 		}
 		outBytes += n
+		emitAPI(p, h, res, ps)
 		stats["frames"] += len(ps.frames) - 1
 		if len(res.truths) >= 2 && unmodifiedSomewhere(root, oc.masks) {
 			note("nontrivial %x", fnv(res.truths...))
